@@ -8,6 +8,7 @@ import (
 	"math/rand"
 	"os"
 	"reflect"
+	"regexp"
 	"sort"
 	"strings"
 	"time"
@@ -394,6 +395,18 @@ func (r *screenRun) waitRedraw(before int) bool {
 	return ok
 }
 
+var padRe = regexp.MustCompile(`\$<[0-9.]+[*/]*>`)
+
+// stripPadding removes the delay specifications from every string capability of the copy.
+func stripPadding(ti *terminfo.Terminfo) {
+	v := reflect.ValueOf(ti).Elem()
+	for i := 0; i < v.NumField(); i++ {
+		if f := v.Field(i); f.Kind() == reflect.String && f.CanSet() {
+			f.SetString(padRe.ReplaceAllString(f.String(), ""))
+		}
+	}
+}
+
 func (r *screenRun) run(ops []sop, w, h int, truecolor bool, altscreen bool) error {
 	r.stats.hists++
 	ti := r.ti // private copy: building a screen edits the entry it is given
@@ -708,6 +721,7 @@ func screenMain(args []string) error {
 	behEvery := fs.Int("behevery", 1, "replay every n-th generated history only")
 	big := fs.Int("big", 0, "every big-th history uses a large screen (0: never)")
 	charset := fs.String("charset", "UTF-8", "locale character set")
+	nopad := fs.Bool("nopad", false, "strip $<..> padding from the entry (padding is C15's subject; avoids real sleeps in long replays)")
 	sweep := fs.String("sweep", "", "code-point sweep instead of random histories: quick | full")
 	fs.Parse(args)
 	encoding.Register()
@@ -794,6 +808,9 @@ func screenMain(args []string) error {
 			ti := base
 			if tc {
 				ti = withTrueColor(ti)
+			}
+			if *nopad {
+				stripPadding(&ti)
 			}
 			truecolor := ti.SetFgRGB != "" || ti.SetBgRGB != "" || ti.SetFgBgRGB != ""
 			r := &screenRun{tw: tw, rng: rng, term: name, ti: ti, stats: stats, mix: *mix, rich: true, charset: *charset}
